@@ -191,6 +191,9 @@ def _wrap(line, w):
 # ------------------------------------------------------------------ generation
 
 def _text(seed, length):
+    if seed % 5 == 3 and length >= 3:
+        # a line padded with blanks (as a progress bar pads a shorter frame): the blanks occupy cells and rows too
+        return "".join(chr(97 + (seed * 7 + t) % 26) for t in range(2)) + " " * (length - 2)
     return "".join(chr(97 + (seed * 7 + t) % 26) for t in range(length))
 
 
@@ -302,8 +305,11 @@ def generate(tier, rng):
         yield _random_term(rng)
     for _ in range(n_plain):
         yield _random_sec(rng, False)
-    for _ in range(n_rand):
-        yield _random_sec(rng, True)
+    for k in range(n_rand):
+        c = _random_sec(rng, True)
+        if k % 4 == 0:
+            c["foreign"] = True
+        yield c
 
 
 def exhaustive(tier):
@@ -355,7 +361,20 @@ def run_impl(case):
     pre_bytes = io.fetch_output()
     pos = len(pre_bytes)
     secs, steps = [], []
+    fsec = None
     for op in case["ops"]:
+        if case.get("foreign") and secs:
+            # other outputs of the process use sections too (the error output of this very I/O, a second I/O):
+            # what they do is none of this output's business
+            try:
+                if fsec is None:
+                    io2 = BufferedIO(formatter=AnsiFormatter(forced=True) if case["ansi"] else PlainFormatter())
+                    fsec = [io.error_output.section(), io2.output.section()]
+                for k, fs in enumerate(fsec):
+                    fs.write_line("foreign %d" % k)
+            except Exception as e:  # noqa
+                steps.append({"error": "foreign:" + type(e).__name__})
+                break
         try:
             if op[0] == "create":
                 secs.append(out.section())
